@@ -163,10 +163,30 @@ pub fn c13_dual2vec_widen_entries() {
     cover!(p2 && !p1);
 }
 
-/// dynamic storage
+/// dynamic storage (length 1: heap-backed parts of symbolic content are expensive for CBMC;
+/// length 2 is the `_slow` twin of the thorough tier)
+#[cfg_attr(kani, kani::proof)]
+#[cfg_attr(kani, kani::unwind(4))]
+pub fn c13_dualdvec_widen_narrow() {
+    use nalgebra::{DVector, Dyn};
+    let present = any_bool();
+    let a = any_f32();
+    let eps = if present { Derivative::some(DVector::<f32>::from_vec(vec![a])) } else { Derivative::none() };
+    let x = DualVec::<f32, f32, Dyn>::new(any_f32(), eps);
+    let w: DualVec<f64, f64, Dyn> = x.to_superset();
+    assert!(same64(w.re, x.re as f64) && (w.eps == Derivative::none()) == !present);
+    if present {
+        let e = w.eps.clone().unwrap_generic(Dyn(1), U1);
+        assert!(e.len() == 1 && same64(e[0], a as f64));
+    }
+    let r: Option<DualVec<f32, f32, Dyn>> = SubsetOf::from_superset(&w);
+    assert!(r.is_some() == <DualVec<f32, f32, Dyn> as SubsetOf<DualVec<f64, f64, Dyn>>>::is_in_subset(&w));
+    cover!(present);
+}
+
 #[cfg_attr(kani, kani::proof)]
 #[cfg_attr(kani, kani::unwind(6))]
-pub fn c13_dualdvec_widen_narrow() {
+pub fn c13_dualdvec2_widen_narrow_slow() {
     use nalgebra::{DVector, Dyn};
     let present = any_bool();
     let (a, b) = (any_f32(), any_f32());
@@ -186,6 +206,7 @@ pub fn c13_dualdvec_widen_narrow() {
 pub const LIST: &[(&str, fn())] = &[
     ("c13_dual2vec_widen_entries", c13_dual2vec_widen_entries),
     ("c13_dualdvec_widen_narrow", c13_dualdvec_widen_narrow),
+    ("c13_dualdvec2_widen_narrow_slow", c13_dualdvec2_widen_narrow_slow),
     ("c13_dual_widen_roundtrip", c13_dual_widen_roundtrip),
     ("c13_dual_narrow_membership", c13_dual_narrow_membership),
     ("c13_dual2_narrow_membership", c13_dual2_narrow_membership),
